@@ -85,6 +85,8 @@ impl GarbageCollector {
 
         for chunk_key in chunk_keys.into_iter().take(self.config.batch_size) {
             if let Ok(tensor) = self.store.get(&chunk_key) {
+                #[cfg(feature = "neumann_verif")]
+                verif_refcount_window(&chunk_key);
                 let refs = get_int(&tensor, "_refs").unwrap_or(0);
                 let created =
                     u64::try_from(get_int(&tensor, "_created").unwrap_or(0).max(0)).unwrap_or(0);
